@@ -97,6 +97,7 @@ CfgView(c) == [cs[c].cfg EXCEPT !.tbl = TblOf(c)]
 
 BeginCompileWith(c, call) ==
   /\ cs[c].pc = "idle"
+  /\ Sequential => \A d \in CSlots : d < c => cs[d].pc \in {"done", "failed"}
   /\ cs' = [cs EXCEPT ![c] = [IdleC EXCEPT !.pc = "begun", !.call = call]]
   /\ Took(Step("BeginCompile", c, 0))
   /\ UNCHANGED <<base, exper, sharedEnv, tz, clock, ticks, exprs, es, cache>>
